@@ -5,10 +5,10 @@ import json, os
 HERE = os.path.dirname(os.path.dirname(os.path.abspath(__file__)))
 BASE = "cd /repo && /venv/bin/python -m pytest -ra -q -p no:cacheprovider --timeout=900 --continue-on-collection-errors"
 T = {
- 'C01': ('E1', '4/C01', 'exhaustive choice-tree enumeration of systems x solver routes on the real code with a per-evaluation monitor; residual-bounded oracle rebuilt from the spec',
+ 'C01': ('E1', '4/C01', 'exhaustive choice-tree enumeration of systems (rank 1-3, 12 interaction kinds per pair, omega sets incl. copolymer + third species, dr- and dk-built domains, four construction paths of the same specification) x solver routes on the real code with a per-evaluation monitor; residual-bounded oracle rebuilt from the spec',
          'Every system of a finite lattice (rank 1-3, all interaction kinds per pair, omega kinds, kT, densities, solver routes) is built and solved with the real code; after every cost evaluation and at every converged root the PRISM equation and each pair closure are checked against references rebuilt from the spec, bounded by the reported residual.',
          'Domain transforms define the r<->k correspondence (C07/C08); scipy.optimize.root; properties are conditional on convergence'),
- 'C02': ('E1', '4/C02', 'exhaustive enumeration of (eta x refinement ladder) and (potential x closure x kT x density ladder) on the real solver; closed-form oracles with analytic error envelopes',
+ 'C02': ('E1', '4/C02', 'exhaustive enumeration of (eta x refinement ladder x six base lengths incl. non-powers of two) and (potential x closure x kT x density ladder down to 1e-7) on the real solver; closed-form oracles with analytic error envelopes',
          'Complete product of packing fractions x six-level refinement ladder and of dilute-limit cases, each solved by the real code and compared with Wertheim-Thiele / Boltzmann-factor closed forms with error bounds proportional to dr taken from the analytic solution, plus shrink-under-refinement.',
          'finite ladders stand in for "all sufficiently fine domains"; Gauss-Legendre quadrature of closed forms'),
  'C03': ('E1', '4/C03', 'exhaustive enumeration of hard-core systems x trial-gamma alphabet with a closure-call monitor; exact c+gamma=-1 oracle',
@@ -22,28 +22,28 @@ T = {
  'C06': ('E2', '4/C06', 'explicit-state BFS over call histories of the real object to abstract fixpoint + all call sequences to depth 2-4 without deduplication; differential oracle vs fresh solved object',
          'All histories over 16 operations on one solved PRISM object are explored on the real code: BFS with a canonical abstract state closes (fixpoint), and every sequence up to the depth bound is additionally enumerated without deduplication; each returned value and the stored arrays are compared with a fresh identically solved object.',
          'abstraction argument in DESIGN 4/C06; Domain transforms trusted (C07/C08)'),
- 'C07': ('E1+E2', '4/C07', 'exhaustive enumeration of (length x spacing x constructor) and BFS over dr/dk/length setter histories on the real Domain; differential vs fresh Domain + exact inverse/linearity identities on basis vectors',
+ 'C07': ('E1+E2', '4/C07', 'exhaustive enumeration of (length x spacing x constructor) and BFS over dr/dk/length setter histories (incl. nudged values, deep and shallow copies, decoy Domains) on the real Domain; differential vs fresh Domain + exact inverse/linearity/buffer identities on basis vectors; MatrixArray transforms over flags x memory layouts x failing calls',
          'Every length in a range x spacing alphabet and every setter history up to a depth is executed on the real Domain class; grids, conjugate spacing and transforms are compared with a freshly constructed Domain and with round-trip / linearity identities on full bases.',
          'scipy.fftpack.dst is trusted as a linear map'),
  'C08': ('E1', '4/C08', 'exhaustive enumeration of analytic families x widths x amplitudes x refinement ladder; closed-form 3-D transforms with analytic first-order error constants',
          'Forward and backward transforms of every family member on every ladder level are compared separately with closed forms, bounded by analytic constants times dr and required to shrink.', 'finite ladder'),
- 'C09': ('E1', '4/C09', 'exhaustive elementwise product (closure x flag x r-vs-sigma class x gamma x u alphabets) and all vectors on tiny grids on the real closure classes; published relations re-implemented',
+ 'C09': ('E1', '4/C09', 'exhaustive elementwise product (closure x alias x flag spelling x r-vs-sigma class x gamma x u alphabets incl. tiny and infinite values) and all vectors on tiny grids on the real closure classes; call histories (re-chained calls, two instances with different flags in all orders, valid call after a failed one); published relations re-implemented',
          'The complete product is evaluated on the real closure objects and compared with reference relations; non-interference is checked on all vectors over a small alphabet on 1-3 point grids.', 'published closure relations'),
- 'C10': ('E1', '4/C10', 'exhaustive enumeration of potential x parameters x grids x sigma placements (every on-grid sigma) x diameter pairs on the real classes; documented u(r) re-implemented',
+ 'C10': ('E1', '4/C10', 'exhaustive enumeration of potential x parameters x grids x sigma placements (every on-grid sigma) x diameter pairs on the real classes, plus all sigma-assignment/evaluation histories to depth 3/5 with results held, all construction orders of co-existing objects, wiring through a System; documented u(r) re-implemented',
          'Every potential class is evaluated for every element of the product and compared with the documented form including the contact rule.', 'documented forms'),
  'C11': ('E1', '4/C11', 'exhaustive enumeration of model x N x geometry x k alphabets (decades and every k of a set of Domains) on the real omega classes; explicit pair sums',
          'Every omega model is evaluated for every element of the product and compared with an explicit loop over separations, limits and bounds.', 'DiscreteKoyama moments from an independent moment propagation of the bond-angle model (refmodel/chains.py); NFJC reference by Gauss-Legendre over the exact Rayleigh-Treloar density'),
- 'C12': ('E1', '4/C12', 'exhaustive enumeration of source layouts x length relations x single-point k perturbations x Domains on the real FromArray/FromFile/PRISM code; bit-identity or mandatory exception',
+ 'C12': ('E1', '4/C12', 'exhaustive enumeration of source layouts x (data, k) length relations x k perturbations (every single point, shift, rescale, NaN) x Domains on the real FromArray/FromFile/PRISM code, incl. retries, re-evaluation on another grid and repeated createPRISM; bit-identity or mandatory exception',
          'Every combination is executed; matching data must come back bit-for-bit, mismatching data must raise before a cost evaluation is possible.', 'numpy.allclose semantics'),
- 'C13': ('E1+E2', '4/C13', 'exhaustive operator matrix (rank x length x operator x operand kind x in/out of place x 3x3 space flags) and all in-place sequences to depth 3 on the real MatrixArray; per-matrix numpy reference',
+ 'C13': ('E1+E2', '4/C13', 'exhaustive operator matrix (rank x length x operator x operand kind x in/out of place x 3x3 space flags) and all sequences to depth 3/4 over 19 in-place/observer operations (11 for IdentityMatrixArray) on the real MatrixArray with all out-of-place results held; per-matrix numpy reference',
          'Every operator/operand/flag combination and every short in-place history is executed on the real class and compared with a per-matrix loop reference, memory sharing and operand snapshots.', 'numpy elementwise arithmetic'),
- 'C14': ('E2', '4/C14', 'explicit-state BFS over operation histories of the real PairTable/ValueTable against a dict reference model including the aliasing partition',
+ 'C14': ('E2', '4/C14', 'explicit-state BFS (successors by deepcopy) over operation histories of the real PairTable/ValueTable for four label sets, nested/falsy/array values, against a dict reference model including the aliasing partition',
          'All histories up to a depth over set/set-list/setUnset/apply/mutate/check/iterate are executed on the real tables and stepped alongside a plain-dict reference model.', 'depth-bounded, no fixpoint claim'),
- 'C15': ('E2', '4/C15', 'explicit-state BFS over assignment histories of the real Density/Diameter against closed forms from a reference dict',
+ 'C15': ('E2', '4/C15', 'explicit-state BFS to fixpoint + all sequences to a depth over assignment histories (scalar, list, iterator keys; nudged, irrational and trace values; three label sets) of the real Density/Diameter, and all interleavings of two live objects with rotated type lists; closed forms from a reference dict',
          'All assignment histories up to a depth over a 3-value alphabet are executed on the real classes; every derived quantity is compared with its closed form on every state.', 'depth-bounded'),
- 'C16': ('E1+E2', '4/C16', 'exhaustive enumeration of all subsets of missing specification items and BFS over edit/create/solve histories of the real System; differential vs freshly built System + snapshot digests',
+ 'C16': ('E1+E2', '4/C16', 'exhaustive enumeration of all subsets of missing specification items and BFS over edit/create/solve histories of the real System (three type-name sets incl. a copolymer + third species); wiring oracle computed from the spec + differential vs freshly built System + snapshot digests + PRISM objects left untouched until after later edits',
          'All 2^14 subsets of removed items and all edit histories up to a depth are executed on the real System/PRISM classes.', 'depth-bounded histories'),
- 'C17': ('E1', '4/C17', 'exhaustive product of characteristic units x methods x argument shapes and all ordered call pairs on the real UnitConverter; SI-2019 exact constants',
+ 'C17': ('E1', '4/C17', 'exhaustive product of characteristic values x unit spellings x methods x argument shapes/layouts/dtypes, all ordered call pairs, all construction/use orders of two converters, omitted-argument constructions, copies, calls after a failed call on the real UnitConverter; SI-2019 exact constants',
          'The complete product is executed and compared with own formulas.', 'pint unit registry parses the unit strings'),
 }
 NA = [{'property_id': 'C18', 'reason': 'the Cython Debyer extension cannot be built in this sandbox (np.int removed, shipped C file is for CPython 3.6), so there is no implementation to execute, and OpenMP schedules inside native code are outside any scheduler the harness could own; see DESIGN.md 4/C18'}]
